@@ -116,3 +116,45 @@ func TestVerifWitness_D4(t *testing.T) {
 	}
 	fmt.Printf("WITNESS-PASSES D4 label kept\n")
 }
+
+// D8: value(K) with a constant that stands for several tokens was emitted without the parentheses that the same
+// text written out gets (C13: a constant is the same as its value; C02: value(N) is one raw operand)
+func TestVerifWitness_D8(t *testing.T) {
+	comp := func(src string) string {
+		p := parser.New(lexer.New(src), parser.CommandConfig{}, "", "", 0, nil)
+		prog, err := p.ParseProgram()
+		if err != nil {
+			return "error: " + err.Error()
+		}
+		out, err := New(prog, false, false, "").Emit()
+		if err != nil {
+			return "error: " + err.Error()
+		}
+		return out
+	}
+	with := comp("const K = 1 + 2\nscript S { if (var(V) >= value(K)) { x } }")
+	written := comp("script S { if (var(V) >= value(1 + 2)) { x } }")
+	if with != written {
+		fmt.Printf("WITNESS-FAILS D8 value(K) with K = 1 + 2 gives %q, value(1 + 2) gives %q\n", with, written)
+		return
+	}
+	fmt.Printf("WITNESS-PASSES D8 same output\n")
+}
+
+// D6: a brace case of a poryswitch inside moves(...) was rejected at its closing brace (C12: brace case forms hold
+// for moves() steps too)
+func TestVerifWitness_D6(t *testing.T) {
+	src := "script S { applymovement(1, moves(a poryswitch(GAME) { RUBY { b c } _: d } e)) }"
+	p := parser.New(lexer.New(src), parser.CommandConfig{}, "", "", 0, map[string]string{"GAME": "RUBY"})
+	prog, err := p.ParseProgram()
+	if err != nil {
+		fmt.Printf("WITNESS-FAILS D6 %s is rejected: %v\n", src, err)
+		return
+	}
+	out, err := New(prog, false, false, "").Emit()
+	if err != nil || !strings.Contains(out, "\ta\n\tb\n\tc\n\te\n\tstep_end\n") {
+		fmt.Printf("WITNESS-FAILS D6 output %q err %v\n", out, err)
+		return
+	}
+	fmt.Printf("WITNESS-PASSES D6 steps a b c e\n")
+}
